@@ -1,0 +1,19 @@
+//go:build verif
+
+// Read-only probe for the runtime monitor of property C04 (/verif). It changes
+// nothing and does not exist without the build tag.
+
+package trie
+
+// VerifLockFree reports whether the node database's lock is free at this
+// instant, i.e. no reader or writer section is open. It must be called from a
+// quiescent point (no trie-database method running on another goroutine):
+// there a false answer means a section was left open by a method that has
+// already returned. It never blocks.
+func (db *Database) VerifLockFree() bool {
+	if !db.lock.TryLock() {
+		return false
+	}
+	db.lock.Unlock()
+	return true
+}
